@@ -222,8 +222,8 @@ NSHARDS = 16
 
 
 def shards(tier, seed):
-    cnt = 14 if tier == "quick" else 900
-    return [{"name": f"rand{i}", "kind": "rand", "i": i, "count": cnt, "budget_s": 90 if tier == "quick" else 1200}
+    cnt = 14 if tier == "quick" else 3000
+    return [{"name": f"rand{i}", "kind": "rand", "i": i, "count": cnt, "budget_s": 90 if tier == "quick" else 3600}
             for i in range(NSHARDS)]
 
 
